@@ -42,6 +42,7 @@ def check(run, repo, world):
     _check_dtmem(run, repo, world)
     _check_report(run, repo, world)
     _check_subs(run, repo, world)
+    _check_feed(run, repo, world)
 
 
 # ---------------------------------------------------------------------------
@@ -226,6 +227,27 @@ def _check_dtmem(run, repo, world):
                 forms.append(unparse(v))
                 if isinstance(v, ast.Constant) and v.value == 0:
                     continue
+                if isinstance(v, ast.IfExp) and isinstance(
+                        v.orelse, ast.Constant) and v.orelse.value == 0 and \
+                        isinstance(v.body, ast.Attribute) and \
+                        v.body.attr == "param":
+                    # <cmd>.param if isinstance(<cmd>, EnableDeviceType) else 0
+                    t_ = v.test
+                    if isinstance(t_, ast.Name):
+                        ds_ = [x.ast.value for x in cfg.reachable
+                               if x.kind == "stmt" and isinstance(
+                                   x.ast, ast.Assign) and unparse(
+                                       x.ast.targets[0]) == t_.id]
+                        if len(ds_) == 1:
+                            t_ = ds_[0]
+                    if isinstance(t_, ast.Call) and unparse(
+                            t_.func) == "isinstance" and len(
+                                t_.args) == 2 and unparse(
+                                    t_.args[0]) == unparse(v.body.value):
+                        k_ = world.resolve_class(modname, t_.args[1])
+                        if k_ is not None and k_.qname == \
+                                "dali.gear.general.EnableDeviceType":
+                            continue
                 if isinstance(v, ast.Attribute) and v.attr == "param":
                     # guarded by isinstance(<cmd>, EnableDeviceType)
                     g = _dominating_isinstance(cfg, n, unparse(v.value),
@@ -319,7 +341,7 @@ def _check_report(run, repo, world):
                 if isinstance(c, ast.Call) and unparse(c.func) == \
                         "self.bus_traffic._invoke":
                     invokes.append((n, c))
-    run.floor("bus_traffic._invoke sites in _bus_watch", len(invokes), 9)
+    run.floor("bus_traffic._invoke sites in _bus_watch", len(invokes), 4)
     inv_node = {n.id: c for (n, c) in invokes}
 
     def transfer(node, st):
@@ -359,7 +381,7 @@ def _check_report(run, repo, world):
                 st = st | {"fresh-lost"}
             st = st | {"fresh"}
         return st
-    W = forward_worlds(cfg, transfer, cet)
+    W = forward_worlds(cfg, transfer, cet, max_worlds=60000)
     heads = [n for n in cfg.reachable if n.kind == "join" and "loop" in
              n.info]
     allw = set()
@@ -570,8 +592,96 @@ def _check_subs(run, repo, world):
     loops = [n for n in ast.walk(dist) if isinstance(n, ast.For)]
     run.ob("R-SUBS", SER + ".DistributorQueue.distribute",
            len(loops) == 1 and unparse(loops[0].iter) ==
-           "self._handlers.values()" and unparse(loops[0].body[0]) ==
-           "handler.distribute(item)" and "self.put_nowait(item)" in
-           ast.unparse(dist),
+           "self._handlers.values()" and isinstance(
+               loops[0].target, ast.Name) and any(
+               unparse(b_) == "%s.distribute(%s)" % (
+                   loops[0].target.id, dist.args.args[1].arg)
+               for b_ in loops[0].body) and "self.put_nowait(%s)" % (
+                   dist.args.args[1].arg) in ast.unparse(dist),
            "distribute must hand the item to every child queue",
            where(smod, dist))
+
+
+def _check_feed(run, repo, world):
+    """Every report the gateway delivers in observe or response mode reaches
+    the watcher, and the watcher reads the framing-error status from that
+    same report."""
+    import struct
+    from ..cfg import forward_worlds
+    from ..seq import cond_edge_transfer, kill_conds_on_assign
+    run.rule("R-FEED", "tridonic: every observe/response report is queued "
+             "for the bus watcher unconditionally; the framing-error status "
+             "is read from the current report")
+    mod = repo.mod(HID)
+    c = world.cls(HID + ".tridonic")
+    fn = c.methods["_handle_read"][1]
+    Q = HID + ".tridonic._handle_read"
+    cfg = CFG(fn, may_raise=lambda n: False, name=Q)
+    W = forward_worlds(cfg, kill_conds_on_assign, cond_edge_transfer())
+    p = fn.args.args[1].arg
+    apps = [n for n in cfg.reachable if n.kind == "stmt" and n.ast is not
+            None and "self._bus_watch_data.append(%s)" % p in unparse(n.ast)]
+    run.floor("reports queued for the bus watcher", len(apps), 1)
+    modes = set()
+    bad = None
+    for n in apps:
+        for w in W.at(n):
+            for f in w:
+                if f[0] != "cond":
+                    continue
+                if f[1] in ("%s[0] == self._MODE_OBSERVE" % p,
+                            "%s[0] == self._MODE_RESPONSE" % p) and f[2]:
+                    modes.add(f[1].split("._MODE_")[1])
+                elif f[2] and not f[1].startswith("%s[0] ==" % p) and \
+                        ("_outstanding" in f[1] or "seq" in f[1]):
+                    bad = f[1]
+    run.ob("R-FEED", Q + "#all-reports-queued", modes == {"OBSERVE",
+                                                         "RESPONSE"} and
+           bad is None,
+           "reports are queued for the watcher for modes %s%s; every report "
+           "in observe or response mode must be queued - a frame sent by "
+           "another master that the gateway reports under a finished "
+           "sequence number would otherwise never be reported" % (
+               sorted(modes), (" and only when `%s`" % bad) if bad else ""),
+           where(mod, fn))
+    # framing-error field in _bus_watch: byte 3 of the report's frame field
+    from ..drv import expand_method
+    bfn = expand_method(world, c, c.methods["_bus_watch"][1],
+                        aliases="params")
+    B = HID + ".tridonic._bus_watch"
+    fmt = None
+    for (nm, e, st) in c.attr_order:
+        if nm == "_resptmpl" and isinstance(e, ast.Call) and e.args and \
+                isinstance(e.args[0], ast.Constant):
+            fmt = e.args[0].value
+    if fmt is None:
+        raise AnalysisError("tridonic._resptmpl format not found")
+    frame_off = struct.calcsize(">BB")
+    msgvar = rawvar = None
+    for n in ast.walk(bfn):
+        if isinstance(n, ast.Assign) and isinstance(n.value, ast.Call):
+            if unparse(n.value.func) == "self._bus_watch_data.pop":
+                msgvar = unparse(n.targets[0])
+            if unparse(n.value.func) == "self._resptmpl.unpack" and \
+                    isinstance(n.targets[0], ast.Tuple) and len(
+                        n.targets[0].elts) == 5:
+                rawvar = unparse(n.targets[0].elts[2])
+    tests = []
+    for n in ast.walk(bfn):
+        if isinstance(n, ast.Compare) and len(n.ops) == 1 and unparse(
+                n.comparators[0]) == "self._BUS_STATUS_FRAMING_ERROR":
+            tests.append(n.left)
+    if not tests:
+        raise AnalysisError("%s: framing-error test not found" % B)
+    ok = True
+    for t in tests:
+        good = isinstance(t, ast.Subscript) and isinstance(
+            t.slice, ast.Constant) and (
+            (unparse(t.value) == msgvar and t.slice.value == frame_off + 3)
+            or (unparse(t.value) == rawvar and t.slice.value == 3))
+        ok = ok and good
+    run.ob("R-FEED", B + "#framing-error-field", ok,
+           "the framing-error status must be byte 3 of the current report's "
+           "frame field (%s[%d] or %s[3]); the test reads %s" % (
+               msgvar, frame_off + 3, rawvar, [unparse(t) for t in tests]),
+           where(mod, bfn))
